@@ -73,6 +73,7 @@ class RecipeRun:
         self.held = []          # slices the user built and handed to recipe calls: (label, object, fingerprint)
         self.near_capacity_fill = False
         self.near_boundary_transfer = False
+        self.min_margin_rel = F(1)
         self.had_fill = False
         self.noise_rel = F(0)   # bake applies fill_to twice: relative noise this can induce downstream (conditioning of later ratios)
         self.peak = {}          # substance -> largest amount seen in any vessel of the eager reference
@@ -519,6 +520,7 @@ class RecipeRun:
             worst = max(worst, slack / T)
             if abs(T - value) <= T * F(1, 10 ** 8) + 4 * slack:
                 self.near_boundary_transfer = True
+            self.min_margin_rel = min(self.min_margin_rel, abs(T - value) / max(T, abs(value)))
         if self.had_fill:
             self.noise_rel += min(worst, F(1))
 
